@@ -60,6 +60,12 @@ func main() {
 		secRotationConstruct(c, n)
 		c.Floor("construct_date_changed_after_creation_then_cycled", int64(n)/10/sh, c.Counter("construct_date_changed_after_creation_then_cycled"))
 
+		n = c.N(480, 4800)
+		secRotationOpenFailure(c, n)
+		c.Floor("open_failure_steps_that_had_to_open_a_file", int64(n)/10/sh, c.Counter("open_failure_steps_that_had_to_open_a_file"))
+		c.Floor("open_failure_steps_file_absent_while_failing", int64(n)/10/sh, c.Counter("open_failure_steps_file_absent_while_failing"))
+		c.Floor("open_failure_lines_after_recovery_in_current_file", int64(n)/5/sh, c.Counter("open_failure_lines_after_recovery_in_current_file"))
+
 		n = c.N(64, 1280)
 		secRotationConcurrent(c, n)
 		c.Floor("concurrent_rotation_lines", int64(n)*20/sh, c.Counter("concurrent_rotation_lines"))
